@@ -6,7 +6,7 @@ LEVEL = "model_checking"
 def run(ctx):
     q = ctx.quick
     st, tr = coreloop.design(ctx, [("CoreLoopMC_none2", 6), ("CoreLoopMC_charge2", 6)] if q else
-                             [("CoreLoopMC_none2", 8), ("CoreLoopMC_charge2", 8), ("CoreLoopMC_none3", 16), ("CoreLoopMC_charge3", 16)])
+                             [("CoreLoopMC_none2", 8), ("CoreLoopMC_charge2", 8), ("CoreLoopMC_none3", 16), ("CoreLoopMC_charge3", 16), ("CoreLoopMC_live", 4)])
     cs = coreloop.base_matrix(ctx.seed, q)
     # emphasis: few slots, both layouts, primaries arriving while tracks are in flight, tight (not exceeded) queue
     orders = ["none", "init_charge"]
